@@ -163,12 +163,19 @@ def explore_protocol(u, v, acc, *, follow_depth, quick, case_base):
                 for idx in (coord, last):
                     ops.append((["put", v, n_full, idx, False], "between", 0))
                 ops.append((["put", v, n_full, coord, True], "between", 0))
-        elif phase == "between":
-            ops += [(["read", x], "between", 0) for x in between + between_agg if st._values[x] is None]
+        elif phase in ("between", "between_nofork"):
+            ops += [(["read", x], phase, 0) for x in between + between_agg if st._values[x] is None]
+            if phase == "between":
+                # the state is moved (to the device it is on) between the proposal and the decision
+                ops.append((["to_device"], "between", 0))
+                # another latent variable is updated WITHOUT snapshot between the proposal and the decision: the documented
+                # lifetime of the snapshot ends there, so a later rejection must say so (input error), never half-restore
+                for w in others[:1]:
+                    ops.append((["ctxput", None, w, 0, u.put_indices[w][0], True], "between_nofork", 0))
             ops.append((["accept"], "after", 0))
             ops.append((["revert"], "after", 0))
             if is_ind and statemc.partial_revert_enabled(st, u.n_ind):
-                ops += [(["revert", m], "after", 0) for m in masks]
+                ops += [(["revert", m], "after", 0) for m in (masks if phase == "between" else masks[1:2])]
         elif phase == "after" and d < follow_depth:
             ops += [(["read", x], "after", d + 1) for x in follow if st._values[x] is None]
             # next proposal on another variable (small / extreme), then its decision
